@@ -184,9 +184,118 @@ def _job(idx):
     return part.dump()
 
 
+# ------------------------------------------------------------------------------
+# the pilot's end is handled by one thread (pilot state callback) while the
+# state subscriber thread applies a task notification: engine B, every
+# schedule within the delay bound
+#
+RACE_TASK_STATES  = [rps.AGENT_EXECUTING, rps.TMGR_STAGING_OUTPUT]
+RACE_NOTIFICATION = [rps.AGENT_STAGING_OUTPUT, rps.TMGR_STAGING_OUTPUT,
+                     rps.DONE, rps.FAILED, rps.CANCELED]
+
+
+def _race_job(args):
+    from rpmc import clientrace, sched as rs
+    from radical.pilot.task_manager import TaskManager
+    from radical.pilot.task         import Task
+    t1_state, notif, p_end, bound = args
+    part = report.Part()
+    cfg  = (('p1', t1_state), ('p2', rps.AGENT_EXECUTING), ('p1', rps.DONE))
+
+    def make_world(s):
+        w = World(cfg)
+        clientrace.control_locks(s, w.tm, ['_tasks_lock', '_tcb_lock',
+                                           '_pilots_lock'])
+        for t in w.tasks.values():
+            clientrace.control_locks(s, t, ['_cb_lock'])
+        w.pilots['p1']._state = p_end
+        return w
+
+    def bodies(w):
+        d = {'uid': 't1', 'type': 'task', 'state': notif, 'pilot': 'p1'}
+        if notif in rps.FINAL:
+            d['target_state'] = notif
+        if notif == rps.FAILED:
+            d['exception'] = 'RuntimeError("task failed")'
+        return [('pilot-end', lambda: w.tm._pilot_state_cb([w.pilots['p1']],
+                                                           p_end)),
+                ('task-note', lambda: w.tm._state_sub_cb(
+                    rpc.STATE_PUBSUB,
+                    seams.wire({'cmd': 'update', 'arg': [d]})))]
+
+    # sequential reference: the real handlers one after the other
+    allowed, seq_exc = set(), set()
+    for order in ((0, 1), (1, 0)):
+        w0 = make_world(rs.Sched())
+        bs = bodies(w0)
+        for i in order:
+            try:
+                bs[i][1]()
+            except Exception as e:
+                seq_exc.add(type(e).__name__)
+        allowed.add(tuple(sorted((u, t.state) for u, t in w0.tasks.items())))
+
+    replay = {'race': [t1_state, notif, p_end]}
+    trig   = '%s:%s:%s' % (t1_state, 'final' if notif in rps.FINAL
+                           else 'live', p_end)
+
+    def judge(w, s, res):
+        rp_ = dict(replay, schedule=list(s.choices))
+
+        def viol(clause, what):
+            part.violation('%s|_pilot_state_cb+_update_tasks|%s'
+                           % (clause, trig),
+                           {'what': '%s; t1 in %s on p1, pilot ends %s while '
+                                    'notification %s arrives; callbacks %s'
+                                    % (what, t1_state, p_end, notif,
+                                       w.cb_log)}, rp_)
+        if res != 'done':
+            viol('race-' + res, 'threads did not finish')
+        for t in s.threads:
+            if t.exc is not None and type(t.exc).__name__ not in seq_exc:
+                viol('race-handler-raises', '%s raised %r' % (t.name, t.exc))
+        end = tuple(sorted((u, t.state) for u, t in w.tasks.items()))
+        if end not in allowed:
+            viol('race-not-sequential', 'task states %s, sequential orders '
+                 'give %s' % (end, sorted(allowed)))
+        for uid in UIDS:
+            fins = [st for u, st in w.cb_log if u == uid and st in rps.FINAL]
+            if len(set(fins)) > 1:
+                viol('race-relabelled', '%s announced in final states %s'
+                                        % (uid, fins))
+            if fins and w.tasks[uid].state != fins[-1]:
+                viol('race-state-vs-announcement', '%s is %s, announced %s'
+                     % (uid, w.tasks[uid].state, fins))
+        if w.tasks['t2'].state != rps.AGENT_EXECUTING or \
+           w.tasks['t3'].state != rps.DONE:
+            viol('race-bystander-changed', 't2/t3: %s' % (end,))
+        part.outcome(('race', t1_state, notif, p_end, end,
+                      tuple(w.cb_log)))
+
+    n, capped = clientrace.explore(
+        make_world, bodies,
+        [TaskManager._pilot_state_cb, TaskManager._update_tasks,
+         TaskManager._state_sub_cb, Task._update], bound, judge)
+    if capped:
+        part.cap('race %s: %d schedules left' % (replay, capped))
+    part.cover(executions=n, race_cases=1, traces_validated_against_impl=n)
+    return part.dump()
+
+
+def run_race(ctx):
+    bound = 1 if ctx.quick else 2
+    jobs  = [(ts, nt, pe, bound) for ts in RACE_TASK_STATES
+                                 for nt in RACE_NOTIFICATION
+                                 for pe in rps.FINAL]
+    for res in seams.pmap(_race_job, jobs, ctx.workers):
+        ctx.merge(res)
+    ctx.set(race_delay_bound=bound)
+
+
 def run(ctx):
     global _cfgs
     ctx.level = 'exploration'
+    run_race(ctx)
     per_task  = list(itertools.product(BINDINGS, TASK_STATES))
     if ctx.quick:
         # t3 ranges over a reduced set (one of each kind) in quick mode
